@@ -1950,6 +1950,10 @@ impl Server {
         }
         
         if let Some(rdb_engine) = &self.rdb_engine {
+            // Both kinds of save write the same temporary file: never run them at the same time
+            if rdb_engine.is_bgsave_in_progress() {
+                return Ok(RespFrame::error("ERR Background save already in progress"));
+            }
             match rdb_engine.save(&self.storage) {
                 Ok(_) => {
                     if let Some(monitor) = &self.storage_monitor {
